@@ -13,7 +13,7 @@
 // cache = any subset, runtime lists = any subset (4*8*4*8 = 1024 cases); plus VERIF_SEED-seeded 2000 random cases over
 // pods {p0,p1,p2}, containers {c0..c3}, random container-to-pod assignment and duplicated list entries. Containers
 // whose pod is in neither the cache nor the runtime list are excluded from the lists given to RefreshContainers
-// (InsertContainer panics on them: C14 finding, see findings/C14_cache_nil_test.go).
+// (InsertContainer refuses them). Cached containers are in states running/creating/created/exited by id (c0..c3).
 package cache
 
 import (
@@ -75,7 +75,9 @@ func govcRefreshCase(t *testing.T, dir string, podOf map[string]string, cp, cc, 
 		if !in(cp, podOf[c]) {
 			continue // cannot be inserted without its pod
 		}
-		if _, err := cch.InsertContainer(govcMkCtr(c, podOf[c])); err != nil {
+		// cached containers cover every cache state (creating, created, running, exited), chosen by container id
+		st := []ContainerState{ContainerStateRunning, ContainerStateCreating, ContainerStateCreated, ContainerStateExited}[int(c[len(c)-1]-'0')%4]
+		if _, err := cch.InsertContainer(govcMkCtr(c, podOf[c]), WithContainerState(st)); err != nil {
 			fail("setup: %v", err)
 			return
 		}
